@@ -4,9 +4,11 @@ import (
 	"context"
 	"errors"
 	"fmt"
+	"reflect"
 	"sort"
 	"strings"
 	gotime "time"
+	"unsafe"
 
 	"go.uber.org/zap"
 
@@ -196,7 +198,7 @@ func (w *World) Exec(st *Step) (res StepResult) {
 	}
 	if isRPC && !inPar {
 		if st.Net != "" {
-			w.netPlan = &NetFault{Kind: st.Net}
+			w.netPlan = &NetFault{Kind: st.Net, Seed: st.I}
 		}
 		if st.DB != nil {
 			f := *st.DB
@@ -450,11 +452,28 @@ func (w *World) Exec(st *Step) (res StepResult) {
 		}
 		res.Out = fmt.Sprintf("delivered:%s:%d", proc, status)
 	case "bg":
+		if drainDebug {
+			var names []string
+			for _, p := range w.Parked() {
+				names = append(names, p.task.name+":"+p.method)
+			}
+			res.Out = fmt.Sprintf("ok%v", names)
+		}
 		if !w.ReleaseParked(st.I) {
 			return StepResult{Out: "skip"}
 		}
 	case "bgdrain":
-		res.Out = fmt.Sprintf("ran:%d", w.DrainBackground())
+		// NOTE: the number of storage calls the background tasks still had to make is not
+		// part of the outcome: which of two snapshot tasks of one document ends up writing
+		// the snapshot is decided by a TryLock between goroutines of the server, and the
+		// GC twin compares outcomes step by step
+		w.DrainLog = nil
+		n := w.DrainBackground()
+		w.Stats.Probes["background_calls_drained"] += n
+		res.Out = "ran"
+		if drainDebug {
+			res.Out += fmt.Sprint(n, w.DrainLog)
+		}
 	case "restart":
 		if err := w.Restart(); err != nil {
 			panic(err)
@@ -511,10 +530,21 @@ func (w *World) Exec(st *Step) (res StepResult) {
 		return w.execIntrude(st)
 	case "rotate":
 		return w.execRotate(st)
+	case "decode_hostile":
+		return w.execDecodeHostile(st)
+	case "corrupt_store":
+		return w.execCorruptStore(st)
 	default:
 		panic("unknown step op " + st.Op)
 	}
 	return res
+}
+
+// bgSpawned reads how many background goroutines the server has started (debugging).
+func (w *World) bgSpawned() int32 {
+	b := reflect.ValueOf(w.gen.be).Elem().FieldByName("background")
+	v := reflect.NewAt(b.Type(), unsafe.Pointer(b.UnsafeAddr())).Elem().Elem().FieldByName("routineID")
+	return *(*int32)(unsafe.Pointer(v.UnsafeAddr()))
 }
 
 func (w *World) nextFGTask() *taskInfo {
